@@ -153,6 +153,9 @@ def lean_type(t):
     if t.startswith('Tuple') and ' ' in t:
         n, et = int(t.split()[0][5:]), t.split(' ', 1)[1]
         return ' × '.join([_paren(lean_type(et))] * n)
+    if t.startswith('Cells') and ' ' in t:          # a fixed-length list used only through constant subscripts
+        n, et = int(t.split()[0][5:]), t.split(' ', 1)[1]
+        return ' × '.join([_paren(lean_type(et))] * n)
     if t in LEAN_TYPE:
         return LEAN_TYPE[t]
     if t.startswith('Pair '):
@@ -441,6 +444,8 @@ class FnTr:
             return self.if_stmt(s, rest)
         if isinstance(s, (ast.Assign, ast.AnnAssign)):
             return self.assign(s, rest)
+        if isinstance(s, ast.AugAssign) and self.u.hooks.get('aug_assign'):
+            return self.aug_assign(s, rest)
         if isinstance(s, ast.For):
             return self.for_stmt(s, rest)
         if isinstance(s, ast.While) and self.on_fall is not None:
@@ -637,7 +642,10 @@ class FnTr:
                         raise Unsupported(f'`{self.inst.qual}`: unpacking into `{ast.unparse(t)}`')
                     self.env[t.id] = Val(f'{tmp}.{i + 1}', parts[i], path=t.id)
                     self.narrow.pop(t.id, None)
-                return self.wrap(f'let {tmp} := {v.text}\n' + self.block(rest))
+                pend, self.pending = self.pending, []          # (the raising calls of the right-hand side are bound *around* the let)
+                inner = self.block(rest)
+                self.pending = pend
+                return self.wrap(f'let {tmp} := {v.text}\n' + inner)
             if v.typ.startswith('Pair ') and n == 2:
                 tmp = self.gensym('t')
                 for i, t in enumerate(tgt.elts):
@@ -645,7 +653,10 @@ class FnTr:
                         raise Unsupported(f'`{self.inst.qual}`: unpacking into `{ast.unparse(t)}`')
                     self.env[t.id] = Val(f'{tmp}.{i + 1}', v.typ[5:], path=t.id)
                     self.narrow.pop(t.id, None)
-                return self.wrap(f'let {tmp} := {v.text}\n' + self.block(rest))
+                pend, self.pending = self.pending, []          # (the raising calls of the right-hand side are bound *around* the let)
+                inner = self.block(rest)
+                self.pending = pend
+                return self.wrap(f'let {tmp} := {v.text}\n' + inner)
             if v.typ.startswith('List ') and all(isinstance(t, ast.Name) for t in tgt.elts):
                 # `a, b = xs` for a list of statically unknown length: ValueError unless it has exactly n entries
                 if not self.inst.raises:
@@ -670,12 +681,21 @@ class FnTr:
                     raise Unsupported(f'`{self.inst.qual}`: unpacking into `{ast.unparse(t)}`')
                 self.env[t.id] = Val(pr, et, path=t.id)
                 self.narrow.pop(t.id, None)
-            return self.wrap(f'let {tmp} := {v.text}\n' + self.block(rest))
+            pend, self.pending = self.pending, []
+            inner = self.block(rest)
+            self.pending = pend
+            return self.wrap(f'let {tmp} := {v.text}\n' + inner)
         if isinstance(tgt, ast.Tuple):
             if not isinstance(value, ast.Tuple) or len(value.elts) != len(tgt.elts):
                 raise Unsupported(f'`{self.inst.qual}`: tuple assignment from a non-tuple')
             vals = [self.expr(e) for e in value.elts]        # right-hand sides are all evaluated first
             pairs = list(zip(tgt.elts, vals))
+        elif isinstance(tgt, ast.Name) and self.cells_display(tgt.id, value):
+            vals = [self.expr(x) for x in value.elts]
+            ets = {x.typ for x in vals}
+            if len(ets) != 1:
+                raise Unsupported(f'`{self.inst.qual}`: list display of several types {sorted(ets)}')
+            pairs = [(tgt, Val('(' + ', '.join(x.text for x in vals) + ')', f'Cells{len(vals)} {vals[0].typ}'))]
         else:
             if 'frame' in self.u.hooks:
                 self._effect_ok = self.effect_context(value)
@@ -710,6 +730,28 @@ class FnTr:
         for t, v in pairs:
             if isinstance(t, ast.Name) and t.id in self.env and self.env[t.id].typ == 'R' and v.typ == 'Int':
                 v = Val(f'({v.text} : Rat)', 'R')       # an int literal assigned to a float variable
+            if isinstance(t, ast.Name) and t.id in self.env and (self.env[t.id].typ, v.typ) in (('R', 'Nat'), ('Int', 'Nat')) \
+                    and not getattr(v, 'raises', False):
+                v = Val(f'({v.text} : {lean_type(self.env[t.id].typ)})', self.env[t.id].typ)     # a non-negative int kept at the variable's type
+            if isinstance(t, ast.Subscript) and isinstance(t.value, ast.Name) and t.value.id in self.env \
+                    and self.env[t.value.id].typ.startswith('Cells') and not getattr(v, 'raises', False):
+                # `cells[i] = v` for a literal i: the tuple with that component replaced
+                old = self.env[t.value.id]
+                n, et = int(old.typ.split()[0][5:]), old.typ.split(' ', 1)[1]
+                i = t.slice.value if isinstance(t.slice, ast.Constant) and isinstance(t.slice.value, int) else None
+                if i is None or isinstance(i, bool) or not 0 <= i < n:
+                    raise Unsupported(f'`{self.inst.qual}`: assignment to `{ast.unparse(t)}`')
+                if et == 'R' and v.typ in ('Int', 'Nat'):
+                    v = Val(f'({v.text} : Rat)', 'R')
+                if v.typ != et:
+                    raise Unsupported(f'`{self.inst.qual}`: {v.typ} stored into a list of {et}')
+                comps = [v.text if j == i else _cell_proj(old.text, j, n) for j in range(n)]
+                nm = self.gensym(lname(t.value.id))
+                if self.pending:
+                    raise Unsupported(f'`{self.inst.qual}`: raising call in `{ast.unparse(t)} = …`')
+                lets.append(f'let {nm} := (' + ', '.join(comps) + ')')
+                self.env[t.value.id] = Val(nm, old.typ, path=t.value.id)
+                continue
             if isinstance(t, ast.Name):
                 if getattr(v, 'raises', False):
                     nm = self.gensym(lname(t.id))
@@ -738,6 +780,42 @@ class FnTr:
             else:
                 raise Unsupported(f'`{self.inst.qual}`: assignment to `{ast.unparse(t)}`')
         return '\n'.join(lets + [self.block(rest)])
+
+    def aug_assign(self, s, rest):
+        """`x op= v` on a number or a string (immutable values: the same as `x = x op v`), or on a cell of a fixed-length list"""
+        t = s.target
+        if isinstance(t, ast.Name):
+            cur = self.env.get(t.id)
+            if cur is None or cur.typ not in ('Nat', 'Int', 'R', 'N', 'Td', 'List Ch'):
+                raise Unsupported(f'`{self.inst.qual}`: `{ast.unparse(s)}` on {cur.typ if cur else "an unbound name"}')
+            load = ast.Name(id=t.id, ctx=ast.Load())
+        elif isinstance(t, ast.Subscript) and isinstance(t.value, ast.Name) and t.value.id in self.env \
+                and self.env[t.value.id].typ.startswith('Cells'):
+            load = ast.Subscript(value=t.value, slice=t.slice, ctx=ast.Load())
+        else:
+            raise Unsupported(f'`{self.inst.qual}`: `{ast.unparse(s)}`')
+        new = ast.Assign(targets=[t], value=ast.BinOp(left=load, op=s.op, right=s.value))
+        return self.assign(ast.fix_missing_locations(ast.copy_location(new, s)), rest)
+
+    def cells_display(self, name, value):
+        """`name = [a, b, …]` where, in the whole function, `name` is only ever read or written through a literal subscript
+        in range (or re-bound to a display of the same length): the list can not be aliased, resized or escape, so it is
+        the tuple of its cells"""
+        if not (isinstance(value, ast.List) and value.elts and not any(isinstance(x, ast.Starred) for x in value.elts)):
+            return False
+        if not self.u.hooks.get('cells'):
+            return False
+        n, allowed = len(value.elts), set()
+        for node in ast.walk(self.fn):
+            if isinstance(node, ast.Subscript) and isinstance(node.value, ast.Name) and node.value.id == name \
+                    and isinstance(node.slice, ast.Constant) and isinstance(node.slice.value, int) \
+                    and not isinstance(node.slice.value, bool) and 0 <= node.slice.value < n:
+                allowed.add(id(node.value))
+            if isinstance(node, ast.Assign) and len(node.targets) == 1 and isinstance(node.targets[0], ast.Name) \
+                    and node.targets[0].id == name and isinstance(node.value, ast.List) and len(node.value.elts) == n \
+                    and not any(isinstance(x, ast.Starred) for x in node.value.elts):
+                allowed.add(id(node.targets[0]))
+        return all(id(node) in allowed for node in ast.walk(self.fn) if isinstance(node, ast.Name) and node.id == name)
 
     def finish_init(self):
         hook = self.u.hooks.get('init')
@@ -794,8 +872,10 @@ class FnTr:
             if isinstance(n, (ast.For, ast.While, ast.Break, ast.Continue, ast.Try, ast.With, ast.Return, ast.Raise)):
                 raise Unsupported(f'`{self.inst.qual}`: `{type(n).__name__}` inside a while body')
         state = [n for n in self.env if n in assigned]
-        if set(state) != assigned:
+        if set(state) != assigned and not self.u.hooks.get('body_locals'):
             raise Unsupported(f'`{self.inst.qual}`: while body assigns names that are not defined before the loop')
+        # (with `body_locals`: a name first assigned inside the body is local to one iteration — it is not in scope at the
+        #  top of the body nor after the loop, so a read that would see the previous iteration's value is rejected as unbound)
         fixed = [n for n in self.env if n not in state and self.env[n].typ not in ('None', 'Kw')]
         loop = f'{self.inst.lean}.loop{len(self.aux) + 1}'
         index = len(self.aux) + 1
@@ -982,6 +1062,9 @@ class FnTr:
         state and `return` leaves the function."""
         if 'frame' in self.u.hooks:
             raise Unsupported(f'`{self.inst.qual}`: a loop in a unit that threads object state')
+        if self.u.hooks.get('nested_fold') and self.on_fall is not None and not any(
+                isinstance(n, (ast.Return, ast.Raise)) for n in ast.walk(ast.Module(body=s.body, type_ignores=[]))):
+            return self.for_fold(s, rest, xs)
         assigned = set()
         for n in ast.walk(ast.Module(body=s.body, type_ignores=[])):
             if isinstance(n, (ast.Assign, ast.AugAssign, ast.AnnAssign)):
@@ -1514,6 +1597,82 @@ class FnTr:
             return self.wrap(self.ok(f'(Num.ofI ({int(e.value)} : Int))'))        # `return 0.` where a float is declared
         return None
 
+    def for_fold(self, s, rest, xs):
+        """A loop *inside another loop's body* that neither returns nor raises: an auxiliary structural recursion over the
+        list that returns the tuple of the state variables (the outer variables its body assigns); the enclosing body
+        continues with the state re-bound to the components of the result."""
+        assigned = set()
+        for n in ast.walk(ast.Module(body=s.body, type_ignores=[])):
+            if isinstance(n, (ast.Assign, ast.AugAssign, ast.AnnAssign)):
+                for t in (n.targets if isinstance(n, ast.Assign) else [n.target]):
+                    for m in ast.walk(t):
+                        if isinstance(m, ast.Name):
+                            assigned.add(m.id)
+            if isinstance(n, ast.Expr) and isinstance(n.value, ast.Call):
+                raise Unsupported(f'`{self.inst.qual}`: call statement inside a nested loop body')
+            if isinstance(n, (ast.While, ast.Break, ast.Continue, ast.Try, ast.With)):
+                raise Unsupported(f'`{self.inst.qual}`: `{type(n).__name__}` inside a loop body')
+        if not isinstance(s.target, ast.Name):
+            raise Unsupported(f'`{self.inst.qual}`: loop target `{ast.unparse(s.target)}`')
+        target = s.target.id
+        if target in self.env or target in assigned:
+            # (after the loop Python leaves the last item in the target: an outer variable of that name would change)
+            raise Unsupported(f'`{self.inst.qual}`: nested loop target `{target}` re-binds a variable')
+        state = [n for n in self.env if n in assigned and n != target]
+        if not state:
+            raise Unsupported(f'`{self.inst.qual}`: nested loop without state')
+        fixed = [n for n in self.env if n not in state and self.env[n].typ not in ('None', 'Kw')]
+        elem = xs.typ[5:]
+        loop = f'{self.inst.lean}.loop{len(self.aux) + 1}'
+        self.aux.append(None)
+        slot = len(self.aux) - 1
+        ctx = [n for n, _t in self.u.ctx_params]
+        aux = self.sub()
+        aux.fresh = self.fresh
+        aux.narrow = {}
+        fixed_b, state_b = [], []
+        for n in fixed:
+            nm = aux.gensym(lname(n))
+            fixed_b.append((nm, self.env[n].typ))
+            aux.env[n] = Val(nm, self.env[n].typ, path=n)
+        for n in state:
+            nm = aux.gensym(lname(n))
+            state_b.append((nm, self.env[n].typ))
+            aux.env[n] = Val(nm, self.env[n].typ, path=n)
+        item, items = aux.gensym('item'), aux.gensym('items')
+        done = '(' + ', '.join(nm for nm, _t in state_b) + ')'
+        body_tr = aux.sub()
+        body_tr.fresh = aux.fresh
+        body_tr.env[target] = Val(item, elem, path=target)
+
+        def next_iteration(tr):
+            for n in state:
+                if tr.env[n].typ != self.env[n].typ:
+                    raise Unsupported(f'`{self.inst.qual}`: `{n}` changes type in a loop ({self.env[n].typ} / {tr.env[n].typ})')
+            return ' '.join([loop] + ctx + [tr.env[n].text for n in fixed] + [items] + [_paren(tr.env[n].text) for n in state])
+        body_tr.on_fall = next_iteration
+        body = body_tr.block(list(s.body))
+        if 'Except.' in body:
+            raise Unsupported(f'`{self.inst.qual}`: a call that may raise inside a nested loop body')
+        self.fresh = body_tr.fresh
+        binders = ' '.join([f'({n} : {t})' for n, t in self.u.ctx_params] + [f'({n} : {lean_type(t)})' for n, t in fixed_b])
+        res_t = ' × '.join(_paren(lean_type(t)) for _n, t in state_b)
+        sig = ' → '.join([f'List {_paren(lean_type(elem))}'] + [lean_type(t) for _n, t in state_b] + [res_t])
+        pat_state = ''.join(f', {n}' for n, _t in state_b)
+        self.aux[slot] = ('\n'.join([
+            f'/-- the `for {ast.unparse(s.target)} in {ast.unparse(s.iter)}` loop of `{self.inst.qual}` (nested: returns its state): '
+            'state ' + ', '.join(state) + ' -/',
+            f'def {loop} {binders} : {sig}',
+            f'  | []{pat_state} =>', _indent(done, 4),
+            f'  | {item} :: {items}{pat_state} =>', _indent(body, 4)]))
+        args = [self.env[n].text for n in fixed] + [_paren(xs.text)] + [_paren(self.env[n].text) for n in state]
+        tmp = self.gensym('st')
+        k = len(state)
+        for i, n in enumerate(state):
+            self.env[n] = Val(_cell_proj(tmp, i, k) if k > 1 else tmp, self.env[n].typ, path=n)
+            self.narrow.pop(n, None)
+        return self.wrap(f'let {tmp} := ' + ' '.join([loop] + ctx + args) + '\n' + self.block(rest))
+
     # ---- expressions -----------------------------------------------------------------------------------
     def truth(self, v):
         """Python truthiness as a Lean Bool"""
@@ -1526,6 +1685,8 @@ class FnTr:
             raise Unsupported(f'truthiness of Optional[{inner}]')
         if v.typ == 'Td':
             return f'({v.text} != 0)'
+        if v.typ == 'Nat':
+            return f'({v.text} != (0 : Nat))'
         if v.typ in self.u.hooks.get('always_truthy', ()):
             return 'true'
         if v.typ.startswith('List '):
@@ -1565,8 +1726,12 @@ class FnTr:
                 return Val('()', 'None')
             if isinstance(e.value, bool):
                 return Val('true' if e.value else 'false', 'Bool')
+            if isinstance(e.value, int) and e.value >= 0 and self.u.hooks.get('nat_literals'):
+                return Val(f'({e.value} : Nat)', 'Nat')          # a non-negative int; widened to Int / Rat where it meets one
             if isinstance(e.value, int):
                 return Val(f'({e.value} : Int)', 'Int')
+            if isinstance(e.value, str) and self.u.hooks.get('str_as_chars'):
+                return Val('([' + ', '.join(f'Char.ofNat {ord(c)}' for c in e.value) + '] : List Char)', 'List Ch')
             if isinstance(e.value, str) and 'str_const' in self.u.hooks:
                 return Val(chars_literal(e.value), 'Chars')          # a str is the list of its characters
             if isinstance(e.value, float) and e.value == int(e.value) and 'float_as_int' in self.u.hooks:
@@ -1658,6 +1823,11 @@ class FnTr:
             if a.typ == 'N':
                 return Val(f'(GV.Sphere.sqr {a.text})', 'N')          # `x ** 2` (libm pow(x, 2.0), see Model/Num.lean)
             raise Unsupported(f'`** 2` on {a.typ}')
+        if isinstance(e, ast.BinOp) and isinstance(e.op, (ast.BitOr, ast.BitAnd)):
+            a, b = self.expr(e.left), self.expr(e.right)
+            if a.typ == b.typ == 'Nat':           # on non-negative ints `|` and `&` are the bitwise operations of Nat
+                return Val(f'({a.text} {"|||" if isinstance(e.op, ast.BitOr) else "&&&"} {b.text})', 'Nat')
+            raise Unsupported(f'`{ast.unparse(e)[:60]}`: {a.typ} {type(e.op).__name__} {b.typ}')
         if isinstance(e, ast.BinOp) and isinstance(e.op, (ast.Div, ast.Mod)):
             a, b = self.unify_num(self.expr(e.left), self.expr(e.right))
             if a.typ == b.typ == 'N':
@@ -1665,7 +1835,7 @@ class FnTr:
                     return Val(f'({a.text} / {b.text})', 'N')
                 return Val(f'(GV.Sphere.pymod {a.text} {b.text})', 'N')      # Python's float `%`
             if a.typ == b.typ == 'R' and isinstance(e.op, ast.Div) and isinstance(e.right, ast.Constant) \
-                    and isinstance(e.right.value, int) and not isinstance(e.right.value, bool) and e.right.value != 0:
+                    and isinstance(e.right.value, (int, float)) and not isinstance(e.right.value, bool) and e.right.value != 0:
                 return Val(f'({a.text} / {b.text})', 'R')           # float division by a non-zero literal (cannot raise)
             raise Unsupported(f'`{ast.unparse(e)[:60]}`: {a.typ} {type(e.op).__name__} {b.typ}')
         if isinstance(e, ast.BinOp) and isinstance(e.op, ast.BitXor):
@@ -1677,6 +1847,16 @@ class FnTr:
             a, b = self.expr(e.left), self.expr(e.right)
             a, b = self.unify_num(a, b)
             sym = {ast.Add: '+', ast.Sub: '-', ast.Mult: '*'}[type(e.op)]
+            if a.typ == b.typ == 'Nat':
+                if sym == '-':                        # the difference of two non-negative ints is an int
+                    return Val(f'(({a.text} : Int) - ({b.text} : Int))', 'Int')
+                return Val(f'({a.text} {sym} {b.text})', 'Nat')
+            if sym == '+' and (a.typ, b.typ) == ('List Ch', 'Ch'):
+                return Val(f'({a.text} ++ [{b.text}])', 'List Ch')          # str + one-character str
+            if sym == '+' and (a.typ, b.typ) == ('Ch', 'List Ch'):
+                return Val(f'({a.text} :: {b.text})', 'List Ch')
+            if sym == '+' and (a.typ, b.typ) == ('Ch', 'Ch'):
+                return Val(f'[{a.text}, {b.text}]', 'List Ch')
             if a.typ == b.typ == 'N' or a.typ == b.typ == 'R' or (a.typ == b.typ == 'Int' and sym == '*'):
                 return Val(f'({a.text} {sym} {b.text})', a.typ)
             if sym == '+' and a.typ == b.typ and a.typ.startswith('List '):
@@ -1764,6 +1944,29 @@ class FnTr:
             if v.typ.startswith('Prod ') and isinstance(e.slice, ast.Constant) and e.slice.value in (0, 1):
                 parts = _prod_parts(v.typ)
                 return Val(f'{v.text}.{e.slice.value + 1}', parts[e.slice.value])
+            if v.typ.startswith('Cells') and isinstance(e.slice, ast.Constant) and isinstance(e.slice.value, int) \
+                    and not isinstance(e.slice.value, bool) and 0 <= e.slice.value < int(v.typ.split()[0][5:]):
+                return Val(_cell_proj(v.text, e.slice.value, int(v.typ.split()[0][5:])), v.typ.split(' ', 1)[1])
+            items = self.u.hooks.get('items', {})
+            if isinstance(e.slice, ast.Constant) and isinstance(e.slice.value, str) and (v.typ, e.slice.value) in items:
+                tmpl, typ = items[(v.typ, e.slice.value)]          # a TypedDict with known keys: a record field
+                return Val(tmpl.format(v.text), typ)
+            if v.typ.startswith('Dict ') and len(v.typ.split()) == 3:
+                k = self.expr(e.slice)
+                kt, vt = v.typ.split()[1:3]
+                if k.typ != kt:
+                    raise Unsupported(f'dict lookup with a key of type {k.typ} (keys are {kt})')
+                r = Val(f'(match ({v.text}).lookup {k.text} with | some v => Except.ok v | none => Except.error "ERR:Key")', vt)
+                r.raises = True                       # KeyError
+                return r
+            if v.typ.startswith('List ') and not isinstance(e.slice, (ast.Slice, ast.Constant, ast.UnaryOp)) \
+                    and self.u.hooks.get('nat_literals'):
+                k = self.expr(e.slice)
+                if k.typ != 'Nat':
+                    raise Unsupported(f'`{self.inst.qual}`: subscript `{ast.unparse(e)}` with an index of type {k.typ}')
+                r = Val(f'(match ({v.text})[{k.text}]? with | some v => Except.ok v | none => Except.error "ERR:Index")', v.typ[5:])
+                r.raises = True                       # IndexError past the end (the index is non-negative)
+                return r
             if v.typ.startswith('List '):
                 sl = e.slice
                 if isinstance(sl, ast.Slice) and sl.upper is None and sl.step is None and isinstance(sl.lower, ast.Constant) \
@@ -1786,6 +1989,22 @@ class FnTr:
             raise Unsupported(f'`{self.inst.qual}`: subscript `{ast.unparse(e)}` of {v.typ}')
         if isinstance(e, ast.ListComp):
             return self.list_comp(e)
+        if isinstance(e, ast.SetComp) and self.u.hooks.get('set_of'):
+            g = e.generators
+            if len(g) != 1 or g[0].ifs or not isinstance(g[0].target, ast.Name) or g[0].is_async:
+                raise Unsupported(f'`{self.inst.qual}`: set comprehension other than `{{f(x) for x in xs}}`')
+            xs = self.expr(g[0].iter)
+            if not xs.typ.startswith('List '):
+                raise Unsupported(f'comprehension over {xs.typ}')
+            x = self.gensym(lname(g[0].target.id))
+            inner = self.sub()
+            inner.fresh = self.fresh
+            inner.env[g[0].target.id] = Val(x, xs.typ[5:], path=g[0].target.id)
+            elt = inner.expr(e.elt)
+            if inner.pending:
+                raise Unsupported(f'`{self.inst.qual}`: a call that may raise inside a set comprehension')
+            self.fresh = inner.fresh
+            return Val(f'({self.u.hooks["set_of"]} (({xs.text}).map (fun {x} => {elt.text})))', 'Set ' + elt.typ)
         if isinstance(e, ast.Call):
             return self.call(e)
         raise Unsupported(f'`{self.inst.qual}`: expression `{ast.unparse(e)[:80]}` ({type(e).__name__})')
@@ -1827,6 +2046,9 @@ class FnTr:
         if isinstance(op, (ast.In, ast.NotIn)) and b.typ == 'Props' and a.typ == 'Str':
             r = Val(f'((GV.Coll.assocGet {b.text} {a.text}).isSome)', 'Bool')
             return r if isinstance(op, ast.In) else Val(f'(!{r.text})', 'Bool')
+        if isinstance(op, (ast.In, ast.NotIn)) and b.typ.startswith('Dict ') and b.typ.split()[1:2] == [a.typ]:
+            r = Val(f'((({b.text}).lookup {a.text}).isSome)', 'Bool')
+            return r if isinstance(op, ast.In) else Val(f'(!{r.text})', 'Bool')
         if isinstance(op, (ast.In, ast.NotIn)) and b.typ.startswith('List ') and b.typ[5:] == a.typ:
             r = Val(f'(({b.text}).contains {a.text})', 'Bool')
             return r if isinstance(op, ast.In) else Val(f'(!{r.text})', 'Bool')
@@ -1851,7 +2073,7 @@ class FnTr:
             if t is None:
                 raise Unsupported(f'comparison {type(op).__name__} on the numeric class')
             return Val(t.format(_paren(a.text), _paren(b.text)), 'Bool')
-        num = num + ('R',)
+        num = num + ('R', 'Nat')
         if a.typ == b.typ == 'Bool' and isinstance(op, (ast.Eq, ast.NotEq)):
             return Val(f'({a.text} {"==" if isinstance(op, ast.Eq) else "!="} {b.text})', 'Bool')
         if a.typ in num and b.typ == a.typ:
@@ -1887,7 +2109,13 @@ class FnTr:
             return a, Val(f'({b.text} : Rat)', 'R')
         if a.typ == 'Int' and b.typ == 'R':
             return Val(f'({a.text} : Rat)', 'R'), b
+        wide = {'Int': 'Int', 'R': 'Rat'}
+        if a.typ == 'Nat' and b.typ in wide:              # a non-negative int next to an int / a float
+            return Val(f'({a.text} : {wide[b.typ]})', b.typ), b
+        if b.typ == 'Nat' and a.typ in wide:
+            return a, Val(f'({b.text} : {wide[a.typ]})', a.typ)
         return a, b
+
 
     def apply(self, inst, args):
         if len(args) != len([p for p in inst.params]):
@@ -1961,6 +2189,16 @@ class FnTr:
                 return self.expr(e.args[1])
             if f.id == 'sorted' and 'sorted' in self.u.hooks:
                 return self.u.hooks['sorted'](self, e)
+            if f.id == 'len' and len(e.args) == 1 and not e.keywords and 'len' not in self.env and self.u.hooks.get('nat_literals'):
+                v = self.expr(e.args[0])
+                if v.typ.startswith('List '):
+                    return Val(f'(({v.text}).length)', 'Nat')
+                raise Unsupported(f'len() of {v.typ}')
+            if f.id == 'ord' and len(e.args) == 1 and not e.keywords and 'ord' not in self.env and self.u.hooks.get('nat_literals'):
+                v = self.expr(e.args[0])
+                if v.typ == 'Ch':
+                    return Val(f'(({v.text}).toNat)', 'Nat')
+                raise Unsupported(f'ord() of {v.typ}')
             if f.id == 'len' and len(e.args) == 1 and not e.keywords:
                 v = self.expr(e.args[0])
                 if v.typ.startswith('List '):
@@ -2007,7 +2245,15 @@ class FnTr:
                     return self.apply_ctor(inst, args)
             if f.id in self.u.src.defs:
                 args = [self.expr(a) for a in e.args]
-                inst = self.u.find(f.id, tuple(a.typ for a in args))
+                try:
+                    inst = self.u.find(f.id, tuple(a.typ for a in args))
+                except Unsupported:
+                    # a non-negative int where the instance is declared at `int`
+                    inst = next((i for i in self.u.insts if i.qual == f.id and len(i.params) == len(args) and all(
+                        a.typ == t or (a.typ, t) == ('Nat', 'Int') for a, (_n, t) in zip(args, i.params))), None)
+                    if inst is None:
+                        raise
+                    args = [a if a.typ == t else Val(f'({a.text} : Int)', 'Int') for a, (_n, t) in zip(args, inst.params)]
                 return self.apply(inst, args)
             raise Unsupported(f'`{self.inst.qual}`: call of `{f.id}`')
         if isinstance(f, ast.Attribute) and isinstance(f.value, ast.Name) and f.value.id not in self.env \
@@ -2247,6 +2493,11 @@ def _mutated_names(fn):
         if isinstance(n, ast.AugAssign) and isinstance(n.target, ast.Name):
             out.add(n.target.id)
     return out
+
+
+def _cell_proj(text, i, n):
+    """component i of an n-tuple `a × (b × (c × …))`"""
+    return text + '.2' * i + ('.1' if i < n - 1 else '')
 
 
 def _path(e):
